@@ -484,7 +484,7 @@ pub fn context_battery() -> Vec<(&'static str, String, String)> {
         let mut s = String::new();
         if let Ok(h) = v2::Header::try_from(&v2a[..]) {
             let o = h.to_owned();
-            let _ = write!(s, "{:?}|{}|{:?}|{}", h, h, o.tlvs().collect::<Vec<_>>(), o == h);
+            let _ = write!(s, "{:?}|{}|{:?}|{}", h, h, o.tlvs().take(64).collect::<Vec<_>>(), o == h);
         }
         if let Ok(h) = v1::Header::try_from(v1_inputs[0]) {
             let _ = write!(s, "|{:?}|{}|{}|{}", h, h, h.protocol(), h.addresses_str());
@@ -761,7 +761,7 @@ pub fn api_digest_for(id: &str, x: &[u8]) -> String {
                 .and_then(|b| b.build())
                 .map_err(|e| e.kind());
             let dec = v2::Builder::with_addresses(h.header[12], h.protocol, h.addresses)
-                .write_payloads(h.tlvs().filter_map(|t| t.ok()))
+                .write_payloads(h.tlvs().take(h.len() / 3 + 3).filter_map(|t| t.ok()))
                 .and_then(|b| b.build())
                 .map_err(|e| e.kind());
             let tb = h.addresses.to_bytes().map_err(|e| e.kind());
@@ -772,7 +772,9 @@ pub fn api_digest_for(id: &str, x: &[u8]) -> String {
     }));
     part(&mut s, "section", guard(|| {
         let t = v2::TypeLengthValues::from(&x[..x.len().min(600)]);
-        let n = t.clone().count();
+        // bounded: a section of n bytes has at most n/3 + 1 items (an iterator that never ends is
+        // the ordinary workload's finding, it must not hang the probe)
+        let n = t.clone().take(x.len() / 3 + 3).count();
         let items: Vec<_> = t.clone().take(40).collect();
         format!("{} {} {:?} {:?}", t.len(), n, items, t.to_bytes().map(|b| b.len()).map_err(|e| e.kind()))
     }));
